@@ -67,6 +67,13 @@ impl RouteSimilarityFunction {
         ensures r matches Ok(x) ==> x == sim(&self, derefs(a@), derefs(b@))
     { unimplemented!() }
 }
+/// C13 "no two are more similar than the configured threshold": p is not too similar to any of the first n accepted routes / no later route is too similar to an earlier one
+pub open spec fn dissim_all(f: &RouteSimilarityFunction, acc: Seq<Vec<EdgeTraversal>>, n: int, p: Seq<EdgeTraversal>) -> bool {
+    forall|a: int| 0 <= a < n ==> !(#[trigger] sim(f, acc[a]@, p))
+}
+pub open spec fn pairwise_dissim(f: &RouteSimilarityFunction, acc: Seq<Vec<EdgeTraversal>>) -> bool {
+    forall|a: int, b: int| 0 <= a < b < acc.len() ==> !(#[trigger] sim(f, acc[a]@, acc[b]@))
+}
 #[verifier::external_body] pub struct KspTerminationCriteria { _p: u8 }
 impl KspTerminationCriteria {
     #[verifier::external_body] pub fn terminate_search(&self, k: usize, solution_size: usize) -> (r: bool) ensures r ==> solution_size == k { unimplemented!() }
@@ -276,6 +283,8 @@ def build(x):
         &&& forall|j: int| 1 <= j < res.routes@.len() ==> !has_loop(g, (#[trigger] res.routes@[j])@)
         // C03 / C13: every route reports the state accumulated along ITS OWN edges (each edge traversed after the edge actually before it)
         &&& forall|j: int| 0 <= j < res.routes@.len() ==> chained(si, (#[trigger] res.routes@[j])@)
+        // C13: no later route is too similar (by the configured similarity function) to an earlier one
+        &&& pairwise_dissim(similarity, res.routes@)
     }),""")
     f.insert_before(r"let mut iterations: u64 = 1;", """    proof { assert(accepted@.len() == 1); assert(accepted@[0]@ =~= shortest.routes@[0]@); assert(chained(si, accepted@[0]@)); }
     let ghost g = &*si.directed_graph;
@@ -287,6 +296,7 @@ def build(x):
             forall|j: int| 1 <= j < accepted@.len() ==> !has_loop(g, (#[trigger] accepted@[j])@),
             forall|j: int| 0 <= j < accepted@.len() ==> chained(si, (#[trigger] accepted@[j])@),
             forall|i: int| 0 <= i < log.len() ==> #[trigger] log[i],
+            pairwise_dissim(similarity, accepted@),
         decreases query.k - accepted@.len(),""")
     f.insert_before(r"let verif_end: usize = ", """        proof { assert(accepted@.last() == accepted@[accepted@.len() - 1]); }
         assume(iterations as int + prev_accepted_path@.len() < u64::MAX);   // the statistics counter does not wrap
@@ -298,6 +308,8 @@ def build(x):
                 0 <= verif_s <= verif_end, verif_end + 2 <= prev_accepted_path@.len() || verif_end == 0,
                 it0 as int + prev_accepted_path@.len() < u64::MAX, it0 <= iterations, iterations as int <= it0 as int + verif_s, it0 >= 1,
                 best_candidate matches Some(bc) ==> walk(g, query.source, query.target, bc.0@) && !has_loop(g, bc.0@) && chained(si, bc.0@),
+                best_candidate matches Some(bc) ==> dissim_all(similarity, acc0, acc0.len() as int, bc.0@),
+                pairwise_dissim(similarity, acc0),
                 forall|i: int| 0 <= i < log.len() ==> #[trigger] log[i],
             decreases verif_end - verif_s,""")
     f.loop_body_start(2, "            let ghost bc0 = best_candidate;")
@@ -321,9 +333,14 @@ def build(x):
                 assert(chained(si, candidate_path@));
             }""")
     f.insert_before(r"let candidate_path = verif_chain\(root_route, spur_route\);", "            let ghost root0 = root_route@; let ghost back0 = spur_backward@; let ghost spur0 = spur_route@;")
+    flag = "too_similar" in f.text
+    if flag:
+        f.insert_before(r"if similar \{", "proof { assert(test_path@ == acc0[verif_t - 1]@); assert(similar == sim(similarity, test_path@, candidate_path@)); }\n                ")
     f.add_loop_spec(4, """                invariant 0 <= verif_t <= accepted@.len(), accepted@ == acc0, walk(g, query.source, query.target, candidate_path@), !has_loop(g, candidate_path@), chained(si, candidate_path@),
                     best_candidate matches Some(bc) ==> walk(g, query.source, query.target, bc.0@) && !has_loop(g, bc.0@) && chained(si, bc.0@),
-                decreases accepted@.len() - verif_t,""")
+                    best_candidate matches Some(bc) ==> dissim_all(similarity, acc0, acc0.len() as int, bc.0@),
+                    derefs(candidate_test_path@) == candidate_path@,
+""" + ("                    !too_similar ==> dissim_all(similarity, acc0, verif_t as int, candidate_path@),\n                ensures !too_similar ==> verif_t >= accepted@.len(),\n" if flag else "") + """                decreases accepted@.len() - verif_t,""")
     parts.append(f.text + "\n")
     parts.append("""
 // vacuity guard: MUST FAIL
